@@ -244,6 +244,19 @@ func (c *Case) Encode(v reflect.Value, validate bool) (out Outcome) {
 	return out
 }
 
+// EncodeByValue calls API.Encode with the root struct itself (not a pointer to it): every nested value is then reached
+// through a non-addressable reflect.Value.
+func (c *Case) EncodeByValue(v reflect.Value, validate bool) (out Outcome) {
+	defer func() {
+		if r := recover(); r != nil {
+			out.Panic = r
+		}
+	}()
+	out.Bytes, out.Err = c.API.Encode(context.Background(), v.Interface(), opts(validate)...)
+
+	return out
+}
+
 // Decode calls API.Decode into a fresh value of the root type.
 func (c *Case) Decode(b []byte, validate bool) (out Outcome) {
 	p := reflect.New(c.Root.T)
